@@ -99,7 +99,7 @@ func (c *c17ctx) chain() error {
 	cmd := exec.Command("bash", "./bootstrap.bash")
 	cmd.Dir = dir
 	cmd.Env = engine.GoEnvPlain()
-	out, runErr := cmd.CombinedOutput()
+	out, runErr := engine.RunLocked(cmd)
 	c.evals++
 	c.nontriv++
 	if runErr != nil {
@@ -367,7 +367,7 @@ func (c *c17ctx) shippedPart(tier, pegBin string) (*spec.Result, error) {
 			cmd := exec.Command("go", "build", "-o", bin, "./"+filepath.ToSlash(rel))
 			cmd.Dir = engine.VerifDir
 			cmd.Env = engine.GoEnv()
-			if out, err := cmd.CombinedOutput(); err != nil {
+			if out, err := engine.RunLocked(cmd); err != nil {
 				c.report("shipped-build", sg.dir, "the generated parsers compile under all four option sets", clipS(string(out), 600))
 				return
 			}
